@@ -302,3 +302,41 @@ func VerifBroadcastCloseStalled() {
 	zzverif.Assert(zzverif.ThreadsAliveIs(1), "forwarders_gone_after_close") // only the healthy consumer is left
 	zzverif.Cover("broadcast_close_stalled_done")
 }
+
+// A subscriber that starts reading late: more values than its buffer holds are broadcast before it reads the first
+// one (the broadcaster waits for room, as it must); it then receives every value exactly once and in the order of the
+// Broadcast calls, and so does a second subscriber that reads promptly.
+//
+//verif:harness prop=C11 name=broadcast_late_reader_order threads=7 sched=delay preempt=2 t_preempt=3 unwind=14 witness=lenient
+func VerifBroadcastLateReader() {
+	b := New[vMsg]()
+	late := &vConsumer{ch: make(chan vMsg)}
+	prompt := &vConsumer{ch: make(chan vMsg)}
+	b.Subscribe(context.Background(), late.ch)
+	b.Subscribe(context.Background(), prompt.ch)
+	go vConsume(prompt)
+	n := 6 // buffer (2, scaled from 10) + 1 held by the forwarder + 3 more
+	if !zzverif.Symbolic() {
+		n += 8
+	}
+	done := make(chan struct{}, 1)
+	go func() {
+		zzverif.MustFinish()
+		for i := 1; i <= n; i++ {
+			b.Broadcast(vMsg{i, i})
+		}
+		done <- struct{}{}
+	}()
+	zzverif.WaitQuiescent() // the broadcaster is parked on the late subscriber's full buffer
+	go vConsume(late)
+	<-done
+	zzverif.WaitQuiescent()
+	for _, c := range []*vConsumer{late, prompt} {
+		zzverif.Assert(len(c.got) == n, "every_value_exactly_once")
+		for i := 0; i < len(c.got); i++ {
+			zzverif.Assert(c.got[i].id == i+1, "values_in_broadcast_order")
+		}
+	}
+	b.Close()
+	zzverif.Cover("broadcast_late_reader_done")
+}
